@@ -331,6 +331,10 @@ def stat_case(env, func, nd=None, extra=None, maxrows=8):
         fact["oned"] = False
     if func in ("min", "max"):
         fact["oned"] = True
+    if func == "stddev" and fact["dtype"] == "float" and rnd.random() < 0.3:
+        # measurements far from zero (timestamps, ids, money in cents): the spread is tiny next to the mean, which is
+        # where a variance computed as E[x^2] - E[x]^2 loses every digit while the two-pass definition does not
+        fact["offset"] = rnd.choice([10 ** 6, 2 ** 30, 1700000000, 2 ** 40, -3 * 10 ** 9])
     w = None
     if func in ("stddev", "covariance") and rnd.random() < 0.5:
         w = gen.weights(n, small=True)
@@ -487,7 +491,15 @@ def judge(chk, rec, own):
                         if t != ev["tid"]:
                             continue
                         f = rec.floats.get((t, q))
-                        if ev["func"] in ("stddev", "corrcoef"):
+                        off = abs(float(((m.get("case") or {}).get("fact") or {}).get("offset", 0) or 0))
+                        if ev["func"] == "stddev" and off:
+                            # translated data: the inputs are exact, the two-pass definition is accurate to a few ulps of
+                            # the *magnitude* per deviation (delta), i.e. to about 2*sigma*delta*n + n*delta^2 in the variance
+                            nrows = max(1, len(ev.get("vals") or [1]))
+                            delta = 1e-12 * (off + cb_total(m))
+                            tv = 1e-9 * max(1.0, float(x)) + 2 * float(x) ** 0.5 * delta * nrows + nrows * delta * delta
+                            ok = f is not None and f == f and abs(f * f - float(x)) <= tv
+                        elif ev["func"] in ("stddev", "corrcoef"):
                             ok = f is not None and f == f and abs(f * f - float(x)) <= tol * max(1.0, 2 * abs(f))
                         else:
                             ok = f is not None and f == f and abs(f - float(x)) <= tol
